@@ -175,6 +175,16 @@ def operator_grammar(rnd, nlev=None):
     if unary and rnd.random() < 0.7:
         u = rules.pop(len(ops))
         rules.insert(rnd.randint(0, len(rules)), u)           # %prec alternative anywhere in the `|` list
+    z = rnd.random()
+    binary = [r for r in rules if len(r['rhs']) == 3 and r['rhs'][0] == ('n', 0) and r['rhs'][2] == ('n', 0)]
+    if z < 0.25 and binary:
+        # %prec naming a declared token that has no level: the rule loses the precedence its operator would give it
+        terms.append(dict(name='STRIP', lit=None, tag='', num=None, declared=True))
+        rnd.choice(binary)['prec'] = len(terms) - 1
+    elif z < 0.45 and binary:
+        # %prec naming a character literal that the file mentions nowhere else (no declaration, no level, no rule)
+        terms.append(dict(name='hid', lit='~', tag='', num=None, declared=False, hidden=True))
+        rnd.choice(binary)['prec'] = len(terms) - 1
     return dict(terms=terms, nonterms=nonterms, precs=precs, rules=rules, start=0, operator=True)
 
 
@@ -243,6 +253,25 @@ def very_long_rule_grammar(rnd, odd=False):
              dict(lhs=2, rhs=[('t', 1)], prec=None, c=2, coef=[1]),
              dict(lhs=2, rhs=[('t', 2)], prec=None, c=3, coef=[1])]
     return dict(terms=terms, nonterms=nonterms, precs=[], rules=rules, start=0, big=True)
+
+
+def nonassoc_shared_grammar(rnd):
+    """A rule X : a %prec '<' whose completed item stands in two or more states: in one of them '<' can also be shifted (the conflict
+    is settled by the level of '<': an error for %nonassoc), in the others the reduction on '<' is free of conflict."""
+    k = rnd.randint(1, 3)
+    ctx = ['d X < c', 'f X < c', 'g g X < c'][:k]
+    alts = ['P'] + ctx
+    rnd.shuffle(alts)
+    palts = ['X < c', 'Y']
+    rnd.shuffle(palts)
+    spec = 'S: %s ; P: %s ; X: a ; Y: a < e' % (' | '.join(alts), ' | '.join(palts))
+    kind = rnd.choice(['nonassoc', 'nonassoc', 'left', 'right'])
+    g = from_text(spec, ((kind, ['<']),), start='S')
+    lt = next(i for i, t in enumerate(g['terms']) if t['lit'] == '<')
+    for r in g['rules']:
+        if g['nonterms'][r['lhs']]['name'] == 'X':
+            r['prec'] = lt
+    return g
 
 
 def rr_prec_grammar(rnd):
